@@ -51,7 +51,7 @@ def member_function(rel, name, ret_c, params_c=None, must=()):
 def free_function(rel, name, must=()):
     """Extract a namespace-level function (template header stripped)."""
     s = src(rel)
-    start, header, body, end = X.find_function(s, r"(?m)^[A-Za-z_][\w \t\*]*?\b%s\s*\(" % re.escape(name))
+    start, header, body, end = X.find_function(s, r"(?m)^[A-Za-z_][\w \t\*]*?[\s\*]%s\s*\(" % re.escape(name))
     r = X.Rules()
     hdr = re.sub(r"\s+", " ", X.strip_comments(header))
     body = common_rules(r, body)
